@@ -123,7 +123,7 @@ RULE = ("per element configuration (the 10 elements with several constructor set
         "output.duplicate_last_bin/to_csv/write/filename/dirname/fileext/filetype/template/changed) are drawn from "
         "fixed palettes with ctx.rng; flows without any selected value (the empty flow included) over not yet "
         "existing output directories are part of every size sweep; (1) every palette value once with a value of the "
-        "other kind, both orders; (2) for drawn (A, B) with |A|,|B| <= 3 (1-2 draws per size pair in quick, 14 in "
+        "other kind, both orders; (2) for drawn (A, B) with |A|,|B| <= 3 (1 draw per size pair in quick, 14 in "
         "thorough) ALL interleaving patterns are enumerated (exhaustive up to 3+3); (3) thorough adds random "
         "patterns with |A|,|B| <= 6.  Quick keeps a cross of the 54 RunIf selector x inner-sequence settings. "
         "Non-trivial: at least one value of A and one of B in the flow.")
@@ -641,8 +641,13 @@ def make_element(el, root, tdir, clock):
         return lena.output.ToCSV(separator=el.get("sep", ","), header="x,y" if el.get("header") else None,
                                  duplicate_last_bin=el.get("dup", True)), nothing
     if k == "write":
-        return lena.output.Write(_subst(el["outdir"], root), el["defname"], verbose=bool(el.get("verbose")),
-                                 existing_unchanged=el["eu"], overwrite=el["ow"]), nothing
+        w = lena.output.Write(_subst(el.get("outdir_fmt", el["outdir"]), root), el["defname"],
+                              verbose=bool(el.get("verbose")), existing_unchanged=el["eu"], overwrite=el["ow"])
+        if "static" in el:
+            # the output directory is a format string filled from the static context (Write._set_context);
+            # el["outdir"] is what it must become
+            w._set_context(copy.deepcopy(el["static"]))
+        return w, nothing
     if k == "render":
         sel = el.get("sel")
         sd = None if sel is None else lena.flow.Selector(_make_selector(sel))
@@ -746,7 +751,7 @@ def make_element(el, root, tdir, clock):
 # ----------------------------------------------------------------------------------------------------
 # file system
 
-TEMPLATES = {"t1.tex": r"T1 \VAR{ a }|\VAR{ output }", "t2.tex": r"T2 \VAR{ a }"}
+TEMPLATES = {"t1.tex": r"T1 \VAR{ a }|\VAR{ output }|\VAR{ n }", "t2.tex": r"T2 \VAR{ a }|\VAR{ n }"}
 
 
 def prepare_fs(fs, root):
@@ -1608,6 +1613,10 @@ def _configs(tier):
     for od, eu, ow in (("$R", False, False), ("$R/sub", False, False), ("$R", True, False), ("$R/sub", False, True),
                        ("$R/new/dir", False, False)):
         out.append((W(od, eu, ow), wfs, a_write, b_write))
+    out.append((dict(W("$R/ctxdir", False, False), outdir_fmt="$R/{{name}}", static={"name": "ctxdir"}), wfs,
+                a_write, b_write))
+    out.append((dict(W("$R/{{name}}", False, False), outdir_fmt="$R/{{name}}", static={"other": 1}), wfs,
+                a_write, b_write))
     out.append((dict(W("$R", True, False), verbose=True), wfs, a_write, b_write))
     out.append((dict(W("$R/fresh", False, False), verbose=True), wfs, a_write, b_write))
 
@@ -2040,7 +2049,7 @@ def gen_cases(ctx):
     """a generator (lazily enumerable: a changed tree makes a quick run take a sample of the thorough cases)"""
     rng = ctx.rng
     quick = ctx.tier == "quick"
-    draws = 2 if quick else 14
+    draws = 1 if quick else 14
     sizes = [(a, b) for a in range(4) for b in range(4)]
     configs = _configs(ctx.tier)
     ctx.exhaustive = False
@@ -2099,6 +2108,20 @@ def gen_cases(ctx):
                     for pat in rng.sample(pats, min(2, len(pats))):
                         for c in _alias_variants(_mk_case(el, fs, A, B, pat, rng), rng):
                             yield c
+        # 2d. second use after a flow of unselected values only: nothing they carry may reach the next flow
+        if not real and el["k"] != "pdf":
+            for _ in range(2 if quick else 8):
+                ids = _Ids()
+                B1 = _draw(rng, mk_b(ids, rng), 3)
+                A2 = _draw(rng, mk_a(ids, rng), 2)
+                B2 = _draw(rng, mk_b(ids, rng), 1)
+                _, B1 = _prepare(el, [], B1, ids)
+                A2, B2 = _prepare(el, A2, B2, ids, second=True)
+                if not A2 or not B1:
+                    continue
+                pat2 = [True] * len(A2) + [False] * len(B2)
+                rng.shuffle(pat2)
+                yield dict(_mk_case(el, fs, [], B1, [False] * len(B1), rng), second={"A": A2, "B": B2, "pat": pat2})
         # 3. longer flows, random interleavings
         if not quick and not real:
             for _ in range(30):
@@ -2135,7 +2158,8 @@ def _refresh_data(d, ids):
         for x in d["items"]:
             _refresh_data(x, ids)
     elif k == "baredict":
-        d["v"]["n"] = ids.next()
+        if "n" in d["v"]:
+            d["v"]["n"] = ids.next()
     elif k == "gplots":
         for m in d["members"]:
             _refresh_data(m["d"], ids)
